@@ -172,4 +172,136 @@ theorem ready_of_connector6 (tl : Bool) (sched : List (Move (proto6 tl))) (w : W
     (h1 : (w.get s).conn.state = .online t o) (h2 : hasConnect (w.get s)) : Event.ready ∈ (w.get s).events :=
   Rdy.get (rdy6_run sched _ w (rdy6_init tl) hrun) s t o h1 h2
 
+/-! ## the composed statement -/
+
+theorem tokS_none {c : Conn} (h : tokS tl c) {t : Option Nat} (ht : c.state.token? = some t) :
+    tl = true → t = none := by
+  intro htl
+  have := h t ht
+  rw [htl] at this
+  cases t <;> simp at this ⊢
+
+/-- the conclusion: at most five rounds of the fair suffix end with `a` online and told `Ready`,
+everything handed over and acknowledged, all queues empty -/
+def Opened (draws : List Nat) (alt : (proto6 tl).Alt) (w : World (proto6 tl)) : Prop :=
+  ∃ k, k ≤ 5 ∧ ∃ s', fairRoundsT draws alt k (FairState.start w) = some s' ∧ s'.w.quiescentH ∧
+    (∃ t o s, s'.w.a.conn = ⟨.online t o, s⟩) ∧ Event.ready ∈ s'.w.a.events
+
+theorem opened_of_round (draws : List Nat) (alt : (proto6 tl).Alt) {w : World (proto6 tl)}
+    {s1 : FairState (proto6 tl)} {tb : Option Nat} {La : List (DgH × Nat)}
+    (e1 : fairRoundT draws alt (FairState.start w) = some s1)
+    (hF : OnlineFH (gface6 tl) (tb, true) (tb, false) s1 La) (hr : Event.ready ∈ s1.w.a.events) :
+    Opened draws alt w := by
+  obtain ⟨s', La', e4, hq, hF'⟩ := fair_progressH (gface6 tl) Conn6.cfg_ok (sim6 tl) (loct6 tl) draws alt hF
+  refine ⟨5, Nat.le_refl _, s', ?_, hq, ?_, ?_⟩
+  · rw [show (5 : Nat) = 4 + 1 from rfl, fairRoundsT_succ, e1]; exact e4
+  · obtain ⟨o, _, h2⟩ := hF'.on.ca
+    obtain ⟨s, hs⟩ := h2 rfl
+    exact ⟨tb, o, s, hs⟩
+  · obtain ⟨ev, hev⟩ := fairRoundsT_events 4 e4 .a
+    have : s'.w.a.events = s1.w.a.events ++ ev := hev
+    rw [this]; exact List.mem_append_left _ hr
+
+theorem opened_of_online (draws : List Nat) (alt : (proto6 tl).Alt) {w : World (proto6 tl)}
+    {ta tb : Option Nat} (hW : OnlineWH (gface6 tl) (ta, true) (tb, false) w) (hr : Event.ready ∈ w.a.events) :
+    Opened draws alt w := by
+  obtain ⟨s', La', e4, hq, hF'⟩ :=
+    fair_progressH (gface6 tl) Conn6.cfg_ok (sim6 tl) (loct6 tl) draws alt (OnlineFH.start hW)
+  refine ⟨4, by omega, s', e4, hq, ?_, ?_⟩
+  · obtain ⟨o, _, h2⟩ := hF'.on.ca
+    obtain ⟨s, hs⟩ := h2 rfl
+    exact ⟨ta, o, s, hs⟩
+  · obtain ⟨ev, hev⟩ := fairRoundsT_events 4 e4 .a
+    have : s'.w.a.events = w.a.events ++ ev := hev
+    rw [this]; exact List.mem_append_left _ hr
+
+/-- **C02 (c), 0.6, from any reachable world with one connecting side**: `a` has called `connect`
+(it has sent a `Connect`), `b` has not, nobody is disconnected (and `b` is not online while `a` is
+still connecting — `hx`, which no reachable world violates).  Then at most five rounds of the fair
+suffix (`b` can draw a token from `draws`) end with `a` online and told `Ready`, everything handed over
+and acknowledged on both sides, all queues empty. -/
+theorem open_progress6_x (tl : Bool) (draws : List Nat) (alt : (proto6 tl).Alt) (nt : Nat)
+    (hnt : tokenRandom draws = some nt) (sched : List (Move (proto6 tl))) (w : World (proto6 tl))
+    (hadm : admissible (World.init (proto6 tl)) sched = true)
+    (hrun : NetSim.run (World.init (proto6 tl)) sched = some w)
+    (ha : hasConnect w.a) (hb : ¬ hasConnect w.b)
+    (hda : w.a.conn.state ≠ .disconnected) (hdb : w.b.conn.state ≠ .disconnected)
+    (hx : w.a.conn.state = .connecting → ∀ t o, w.b.conn.state ≠ .online t o) :
+    Opened draws alt w := by
+  have hw := run_inv (sim6 tl) sched _ w (init_inv (sim6 tl)) hadm hrun
+  have ht := run_loct (loct6 tl) sched _ w (init_loct (loct6 tl)) hrun
+  have hl := run_loc (loc6 tl) sched _ w (init_loc (loc6 tl)) hrun
+  have hr := rdy6_run sched _ w (rdy6_init tl) hrun
+  have hg := hr.1
+  cases hsa : w.a.conn.state with
+  | unconnected => exact absurd ha (hg.1.unc hsa).1
+  | pending t => exact absurd ha (hg.1.pnd t hsa).1
+  | disconnected => exact absurd hsa hda
+  | connecting =>
+    have hca : w.a.conn = ⟨.connecting, w.a.conn.send⟩ := by rw [← hsa]; rfl
+    cases hsb : w.b.conn.state with
+    | unconnected =>
+      have hcb : w.b.conn = ⟨.unconnected, w.b.conn.send⟩ := by rw [← hsb]; rfl
+      obtain ⟨s1, tb, La, e1, hF, hrd, _⟩ :=
+        ready_round6 tl draws alt nt hnt w hw ht _ hca (Or.inl ⟨_, hcb⟩)
+      exact opened_of_round draws alt e1 hF hrd
+    | pending t =>
+      have hcb : w.b.conn = ⟨.pending t, w.b.conn.send⟩ := by rw [← hsb]; rfl
+      have hts : t.isSome = !tl := hl.2.1 t (by simp [State.token?, hsb])
+      obtain ⟨s1, tb, La, e1, hF, hrd, _⟩ :=
+        ready_round6 tl draws alt nt hnt w hw ht _ hca (Or.inr ⟨t, _, hcb, hts⟩)
+      exact opened_of_round draws alt e1 hF hrd
+    | connecting => exact absurd (hg.2.cng hsb).1 hb
+    | online t o => exact absurd hsb (hx hsa t o)
+    | disconnected => exact absurd hsb hdb
+  | online ta oa =>
+    have hca : w.a.conn = ⟨.online ta oa, w.a.conn.send⟩ := by rw [← hsa]; rfl
+    have hrd : Event.ready ∈ w.a.events := hr.2.1 ta oa hsa ha
+    have key : ∀ (tb : Option Nat) (ob : Online), stTok w.b.conn.state = some tb →
+        w.b.conn.state.token? = some tb → Sh tb ob w.b.conn → Opened draws alt w := by
+      intro tb ob hst htk hsh
+      have hab : ta = tb := hg.1.agree hg.2 hl.1.1 hl.2.1 hsa hst
+      have htb : tl = true → tb = none := tokS_none hl.2.1 htk
+      refine opened_of_online draws alt (ta := ta) (tb := tb)
+        ⟨hw, ht, ⟨oa, Or.inl ⟨_, hca⟩, fun _ => ⟨_, hca⟩⟩, ⟨ob, hsh, fun h => by cases h⟩,
+          ⟨hab, htb⟩, ⟨hab.symm, by rw [hab]; exact htb⟩⟩ hrd
+    cases hsb : w.b.conn.state with
+    | unconnected =>
+      rcases hg.1.onl ta oa hsa with ⟨h1, _⟩ | ⟨_, _, tp, h3, _⟩
+      · exact absurd ha h1
+      · exact absurd h3 ((hg.2.unc hsb).2 tp)
+    | pending t =>
+      have hcb : w.b.conn = ⟨.pending t, w.b.conn.send⟩ := by rw [← hsb]; rfl
+      exact key t .new (by rw [hsb]; rfl) (by rw [hsb]; rfl) (Or.inr ⟨rfl, _, hcb⟩)
+    | connecting => exact absurd (hg.2.cng hsb).1 hb
+    | online t o =>
+      have hcb : w.b.conn = ⟨.online t o, w.b.conn.send⟩ := by rw [← hsb]; rfl
+      exact key t o (by rw [hsb]; rfl) (by rw [hsb]; rfl) (Or.inl ⟨_, hcb⟩)
+    | disconnected => exact absurd hsb hdb
+
+/-! non-vacuity: (1) `a` has just called `connect`, `b` is untouched: five rounds, `a` online and told
+`Ready` once, `b` pending (0.6 acceptors go online with the first chunk packet); (2) `a` is online
+with an unflushed vital chunk, `b` still pending: four rounds, both online, the chunk delivered. -/
+def exA : List (Move (proto6 false)) := [.call .a [] .connect]
+def exB : List (Move (proto6 false)) :=
+  [.call .a [] .connect, .deliver .b 0 [7] .exact, .deliver .a 0 [] .exact, .call .a [] (.send [5] true)]
+
+example : admissible (World.init (proto6 false)) exA = true ∧ admissible (World.init (proto6 false)) exB = true := by
+  decide +kernel
+example : ((NetSim.run (World.init (proto6 false)) exA).map fun w =>
+    (w.a.out.any (fun dg => isConnect dg.pkt), w.b.out.any (fun dg => isConnect dg.pkt),
+      w.a.conn.state matches .connecting, w.b.conn.state matches .unconnected)) = some (true, false, true, true) := by
+  decide +kernel
+example : (((NetSim.run (World.init (proto6 false)) exA).bind fun w =>
+    fairRoundsT (P := proto6 false) [7] Alt.exact 5 (FairState.start w)).map fun s =>
+    ((P6.online s.w.a.conn).isSome, readyCount s.w.a.events, s.w.b.conn.state matches .pending _)) =
+    some (true, 1, true) := by decide +kernel
+example : ((NetSim.run (World.init (proto6 false)) exB).map fun w =>
+    (w.a.out.any (fun dg => isConnect dg.pkt), w.b.out.any (fun dg => isConnect dg.pkt),
+      w.a.conn.state matches .online _ _, w.b.conn.state matches .pending _, w.settled)) =
+    some (true, false, true, true, false) := by decide +kernel
+example : (((NetSim.run (World.init (proto6 false)) exB).bind fun w =>
+    fairRoundsT (P := proto6 false) [7] Alt.exact 4 (FairState.start w)).map fun s =>
+    (s.w.settled, readyCount s.w.a.events, s.w.b.deliveredVital)) = some (true, 1, [[5]]) := by decide +kernel
+
 end Tw.NetSim.P6
